@@ -159,8 +159,7 @@ const (
 // reusedVM is the worker's long-lived plain EVM (one per block in production).
 var reusedVM *evm.EVM
 
-// run executes code under config c on a fresh StateDB of world w. instrumented selects the observed run
-// (probe StateDB + tracer) or the plain production path.
+// run executes code under config c on a fresh StateDB of world w in one of the three modes above.
 func run(w *world, ref *state.StateDB, preRoot common.Hash, code []byte, c config, mode int) *result {
 	instrumented := mode == modeObserved
 	r := &result{preRoot: preRoot}
@@ -419,10 +418,21 @@ func evaluate(w *world, ref *state.StateDB, preRoot common.Hash, code []byte, c 
 	// determinism: two runs from equal pre-states. The second run re-uses a long-lived EVM the way the application
 	// does; if they differ, a third run on a fresh plain EVM tells whether the re-use is what matters.
 	if k, wh := compareRuns(a, b); k != "" {
-		c3 := run(w, ref, preRoot, code, c, modeFresh)
-		nruns++
-		if k3, _ := compareRuns(a, c3); k3 == "" && !c3.panicked && !c3.canceled {
-			add("nondeterministic:evm-reuse:"+k, "a fresh EVM and an EVM re-used after Reset() give different results: %s", wh)
+		// attributed to the re-use only if it is reproducible as a function of it: two more fresh runs agree with
+		// the first run and two more re-used runs agree with the second (a random difference rarely does)
+		reuse := true
+		for i := 0; i < 2 && reuse; i++ {
+			f := run(w, ref, preRoot, code, c, modeFresh)
+			u := run(w, ref, preRoot, code, c, modeReused)
+			nruns += 2
+			kf, _ := compareRuns(a, f)
+			ku, _ := compareRuns(b, u)
+			if kf != "" || ku != "" || f.panicked || f.canceled || u.panicked || u.canceled {
+				reuse = false
+			}
+		}
+		if reuse {
+			add("nondeterministic:evm-reuse:"+k, "a fresh EVM and an EVM re-used after Reset() give (reproducibly) different results: %s", wh)
 		} else {
 			add("nondeterministic:"+k, "%s", wh)
 		}
